@@ -16,9 +16,12 @@ from . import tlaval
 
 ROOT = os.path.dirname(os.path.dirname(os.path.abspath(__file__)))
 SPEC = os.path.join(ROOT, 'spec')
-WORK = os.path.join(ROOT, '.work')
-EVID = os.path.join(ROOT, 'evidence')
-REPLAY = os.path.join(ROOT, 'replays')
+# VERIF_SCRATCH (used by seedtest2.sh only): work files, evidence and replays of a run against a seeded scratch tree go
+# there, so that such runs neither overwrite the evidence of /repo nor collide with a check running at the same time
+_OUT = os.environ.get('VERIF_SCRATCH') or ROOT
+WORK = os.path.join(_OUT, '.work')
+EVID = os.path.join(_OUT, 'evidence')
+REPLAY = os.path.join(_OUT, 'replays')
 TLA_JAR = '/opt/veriftools/tla/tla2tools.jar:/opt/veriftools/tla/CommunityModules-deps.jar'
 NCPU = min(16, os.cpu_count() or 4)
 
